@@ -36,7 +36,7 @@ Definition enc_array_unchecked {A} (f : A -> res bytes) (xs : list A) : res byte
 Definition dec (A : Type) := bytes -> res (A * bytes).
 
 Definition cread (n : nat) : dec bytes := fun bs =>
-  if Nat.ltb (length bs) n then Err (EIo IoUnexpectedEof) else Ok (firstn n bs, skipn n bs).
+  if Nat.ltb (length (firstn n bs)) n then Err (EIo IoUnexpectedEof) else Ok (firstn n bs, skipn n bs).
 
 Definition dec_i8 : dec Z := fun bs => let* '(x, r) := cread 1 bs in Ok (be_dec_s x, r).
 Definition dec_i16 : dec Z := fun bs => let* '(x, r) := cread 2 bs in Ok (be_dec_s x, r).
@@ -81,7 +81,7 @@ Definition dec_bytes : dec bytes := fun bs =>
   let* '(len, r) := dec_i32 bs in
   if len <=? 0 then Ok ([], r)
   else
-    if ulen r <? len then Err EUnexpectedEOF
+    if negb (has_at_least r len) then Err EUnexpectedEOF
     else let n := Z.to_nat len in Ok (firstn n r, skipn n r).
 
 (* size_of of the element types, x86_64 *)
